@@ -180,6 +180,14 @@ const maxStoredPerClass = 25
 
 // fail reports a failing input.  The replay input is trimmed to the field / probe concerned;
 // at most maxStoredPerClass inputs per classifier are kept in the report (all are counted).
+// context-side resolvers never look at the document: only the leak class applies to them
+func classifyCtx(lf *leaf, def string) string {
+	if lf != nil && lf.Leak {
+		return "c11-type-scoped-leak"
+	}
+	return def
+}
+
 func (d *drv) fail(in *caseInput, class, what, only string) {
 	d.rep.Count("failures:" + class)
 	if d.rep.Distribution["failures:"+class] > maxStoredPerClass {
@@ -355,23 +363,44 @@ func (d *drv) runCase(in *caseInput) {
 		tpath := append([]string{lf.TypeTerm}, noIndices(lf.Rel)...)
 		ty, err3 := o.TypeFromContext(in.Ctx, strings.Join(tpath, "."))
 		c.recS("QTypeOf", tpath, ty, err3)
+		if len(indexPositions(lf.Rel)) > 0 {
+			// the same path WITH its indices (ending in an index for a member of a literal array, indices in
+			// every position below node arrays): an error or exactly the recorded datatype, never ("", nil)
+			ipath := append([]string{lf.TypeTerm}, lf.Rel...)
+			ity, ierr := o.TypeFromContext(in.Ctx, strings.Join(ipath, "."))
+			c.recS("QTypeOf", ipath, ity, ierr)
+			d.rep.Count("type-of-indexed-path")
+			if ierr == nil && lf.CtxOK && lf.Declared != "" {
+				switch {
+				case ity == "":
+					d.fail(in, classifyCtx(lf, "c11-empty-type-no-error"), fmt.Sprintf("TypeFromContext(%s) = (\"\", nil): an empty type without an error; the entry is recorded as %q", strings.Join(ipath, "."), lf.DT), path)
+				case ity != lf.DT:
+					d.fail(in, classifyCtx(lf, "c11-datatype-ctx"), fmt.Sprintf("TypeFromContext(%s) = %q, the entry is recorded as %q", strings.Join(ipath, "."), ity, lf.DT), path)
+				}
+			}
+			if pty, perr := merklize.TypeFromContext(in.Ctx, strings.Join(ipath, ".")); (perr == nil) != (ierr == nil) || pty != ity {
+				d.fail(in, "c11-variant", "TypeFromContext differs from Options.TypeFromContext", path)
+			}
+		}
 		if lf.CtxOK {
 			want := lf.Parts[lf.PrefixLen:]
 			switch {
 			case err != nil:
-				d.fail(in, classify(lf, "c11-ctx-path-error"), fmt.Sprintf("FieldPathFromContext(%s, %s): %v", lf.TypeTerm, rel, err), path)
+				d.fail(in, classifyCtx(lf, "c11-ctx-path-error"), fmt.Sprintf("FieldPathFromContext(%s, %s): %v", lf.TypeTerm, rel, err), path)
 			case !partsEqual(fp.Parts(), want):
-				d.fail(in, classify(lf, "c11-ctx-vs-doc"), fmt.Sprintf("FieldPathFromContext(%s, %s) = %v, document-side path without the type prefix = %v", lf.TypeTerm, rel, fp.Parts(), want), path)
+				d.fail(in, classifyCtx(lf, "c11-ctx-vs-doc"), fmt.Sprintf("FieldPathFromContext(%s, %s) = %v, document-side path without the type prefix = %v", lf.TypeTerm, rel, fp.Parts(), want), path)
 			}
 			switch {
 			case err2 != nil:
-				d.fail(in, classify(lf, "c11-ctx-path-error"), fmt.Sprintf("PathFromContext(%s): %v", strings.Join(full, "."), err2), path)
+				d.fail(in, classifyCtx(lf, "c11-ctx-path-error"), fmt.Sprintf("PathFromContext(%s): %v", strings.Join(full, "."), err2), path)
 			case !partsEqual(cp.Parts(), append([]any{lf.TypeIRI}, want...)):
-				d.fail(in, classify(lf, "c11-ctx-vs-doc"), fmt.Sprintf("PathFromContext(%s) = %v, expected type IRI + %v", strings.Join(full, "."), cp.Parts(), want), path)
+				d.fail(in, classifyCtx(lf, "c11-ctx-vs-doc"), fmt.Sprintf("PathFromContext(%s) = %v, expected type IRI + %v", strings.Join(full, "."), cp.Parts(), want), path)
 			}
-			if lf.Declared != "" {
+			if lf.Declared != "" && err3 == nil && ty == "" {
+				d.fail(in, classifyCtx(lf, "c11-empty-type-no-error"), fmt.Sprintf("TypeFromContext(%s) = (\"\", nil): an empty type without an error; declared and recorded datatype %q", strings.Join(tpath, "."), lf.Declared), path)
+			} else if lf.Declared != "" {
 				if err3 != nil || ty != lf.Declared {
-					d.fail(in, classify(lf, "c11-datatype-ctx"), fmt.Sprintf("TypeFromContext(%s) = %q (%v), declared and recorded datatype %q", strings.Join(tpath, "."), ty, err3, lf.Declared), path)
+					d.fail(in, classifyCtx(lf, "c11-datatype-ctx"), fmt.Sprintf("TypeFromContext(%s) = %q (%v), declared and recorded datatype %q", strings.Join(tpath, "."), ty, err3, lf.Declared), path)
 				}
 			}
 		}
